@@ -13,13 +13,16 @@ type Var struct {
 
 // Case is one unit of work for a worker
 type Case struct {
-	ID        string `json:"id"`
-	Op        string `json:"op"` // "prog" or an API op name
-	Block     string `json:"block,omitempty"`
-	HasStdin  bool   `json:"has_stdin,omitempty"`
-	Stdin     []byte `json:"stdin,omitempty"`
-	StdinType string `json:"stdin_type,omitempty"`
-	Vars      []Var  `json:"vars,omitempty"`
+	ID    string `json:"id"`
+	Op    string `json:"op"` // "prog" or an API op name
+	Block string `json:"block,omitempty"`
+	// Blocks: several blocks executed one after the other, each in its own
+	// fork and module (one Run per block); used instead of Block
+	Blocks    []string `json:"blocks,omitempty"`
+	HasStdin  bool     `json:"has_stdin,omitempty"`
+	Stdin     []byte   `json:"stdin,omitempty"`
+	StdinType string   `json:"stdin_type,omitempty"`
+	Vars      []Var    `json:"vars,omitempty"`
 	// YieldSeeds: the block is executed once per entry; 0 = perturbation off
 	YieldSeeds []uint64 `json:"yield_seeds,omitempty"`
 	Events     bool     `json:"events,omitempty"`
